@@ -17,8 +17,8 @@ T('C04', 'exhaustive product-space enumeration of (table shape x value pattern x
   'numpy/numba trusted; float values only on the value lattice; outside the grid only the stated invariants (bracket, non-negative, finite) are demanded')
 
 T('C01', 'exhaustive bounded enumeration (deviation-bounded product of 10 configuration dimensions) of real TransmissionModel runs against an independent slant-path reference integral',
-  'Bounded exhaustive model checking of the real forward model: every configuration of the finite alphabet (layers 2-7, 5 opacity magnitudes from transparent to saturated incl. mixed-per-wavenumber, all 16 contribution subsets, both path methods, pressure ranges, planets, stars, temperature and abundance profiles, both interpolation modes) with <= 2 (thorough 3) deviations plus the full core product is built from fresh objects and compared layer-by-layer with a reference written from the documented integral (explicit spherical-shell chord geometry, own opacity interpolation, tau>10 licence computed per layer), plus geometry invariants and the four stated consequences.',
-  'numba/numpy trusted; density/altitude/mixing profiles read from the model (C10/C11 decide them); Rayleigh and Lee-Mie weighted cross-sections read as data (C03/C19 decide them); small-scope hypothesis')
+  'Bounded exhaustive model checking of the real forward model: every configuration of the finite alphabet (layers 2-7, 5 opacity magnitudes from transparent to saturated incl. mixed-per-wavenumber, all 32 contribution subsets (molecular absorption, CIA, Rayleigh, Lee and flat hazes), both path methods, pressure ranges, planets, stars, temperature and abundance profiles, both interpolation modes) with <= 2 (thorough 3) deviations plus the full core product is built from fresh objects and compared layer-by-layer with a reference written from the documented integral (explicit spherical-shell chord geometry, own opacity interpolation, tau>10 licence computed per layer), plus geometry invariants and the four stated consequences.',
+  'numba/numpy trusted; density/altitude/mixing profiles read from the model (C10/C11 decide them); Rayleigh and haze weighted cross-sections read as data (C03/C19 decide them); small-scope hypothesis')
 
 T('C02', 'exhaustive bounded enumeration (deviation-bounded product of 12 configuration dimensions) of real EmissionModel/DirectImageModel runs against an independent layered thermal-emission reference',
   'Bounded exhaustive model checking of the real emission and direct-image models: every configuration (layers 1-5, 6 temperature profiles, 5 opacity magnitudes incl. mixed-per-wavenumber, 1-6 quadrature points, contribution sets, cross-section and k-table (degenerate and spread) opacity modes through the real KTableCache/pickle path, stars, planets, distances) within the deviation bound plus the full core product is executed and compared with a reference written from the documented integral (own Planck function, closed-form Gauss nodes, explicit cumulative transmittances); the exp(-10) licence is computed exactly per case; isothermal identity, blackbody bounds, partial_model per-angle intensities and the Rp^2/d^2 law are checked on every case.',
